@@ -262,7 +262,7 @@ class World:
         for ci, cls in enumerate(self.classes):
             cts = cls.__dict__["__class_traits__"]
             rows = []
-            names = sorted(t["name"] for t in self.case["traits"])
+            names = sorted(self.name_code(k) for k in cts if 0 <= self.name_code(k) < 999 and k != "trait_added")
             for n in names:
                 rows.append([n, self.tdef(cts["t%d" % n], n, ci)])
             rows.append([-1, self.tdef(cts["trait_added"], -1, ci)])
